@@ -7,6 +7,7 @@ def run(report, tier, seed):
     reps = pyside.run_tasks(py_common.tasks_for(py_common.SOLVER_FUNCS, tier))
     py_common.feed(report, reps, props=('C01',))
     py_common.install_replayer(report)
+    py_common.feed_symm_kernel(report, tier)
     report.floor = 5
     report.assumptions += [
         'floats are treated as mathematical reals',
